@@ -9,9 +9,15 @@ From QV Require Import Common.Prelude Engine.Model Engine.Core Engine.CoreSpec E
 Open Scope Z_scope.
 
 Definition model_no_panic_x_statement_f : Prop :=
-  forall tord bord fuel pfuel p ops i n r, order_ok tord -> order_ok bord -> wf_model_x p ->
+  forall tord bord pord fuel pfuel p ops i n r, order_ok tord -> order_ok bord -> wf_model_x p ->
     nth_error ops i = Some (OQuery n) -> alookup p n <> None ->
-    nth_error (run_history_f tord bord fuel pfuel p init_state ops) i = Some r ->
+    nth_error (run_history_f tord bord pord fuel pfuel p init_state ops) i = Some r ->
+    inputs_cover p (inputs_after (firstn i ops)) ->
+    (exists z, r_out r = RValue z) \/ r_out r = RFuel.
+Definition model_no_panic_x_statement_op : Prop :=
+  forall tord bord pord p ops i n r, order_ok tord -> order_ok bord -> wf_model_x p ->
+    nth_error ops i = Some (OQuery n) -> alookup p n <> None ->
+    nth_error (run_history_op tord bord pord p init_state ops) i = Some r ->
     inputs_cover p (inputs_after (firstn i ops)) ->
     (exists z, r_out r = RValue z) \/ r_out r = RFuel.
 Definition model_no_panic_x_statement_o : Prop :=
@@ -28,27 +34,27 @@ Definition model_no_panic_x_statement : Prop :=
     (exists z, r_out r = RValue z) \/ r_out r = RFuel.
 
 (** a completed user request carries a value *)
-Lemma cuser_value : forall p tord bord f n s o fr' ms s',
-  query_for_o p None tord bord f [] CUser None n s = Ok (o, fr', ms, s') -> exists z, o = QValue (Some z).
+Lemma cuser_value : forall p tord bord pord f n s o fr' ms s',
+  query_for_o p None tord bord pord f [] CUser None n s = Ok (o, fr', ms, s') -> exists z, o = QValue (Some z).
 Proof.
-  intros p tord bord. induction f as [|f IH]; intros n s o fr' ms s' H; [discriminate|].
+  intros p tord bord pord. induction f as [|f IH]; intros n s o fr' ms s' H; [discriminate|].
   rewrite query_for_S in H. cbv zeta in H. cbn [fq_caller mq_reg nmem existsb] in H.
   assert (Hhit : forall s0 v fr2, fast_path s0 CUser None n = (FHit v, fr2) -> fr2 = None /\ exists z, v = Some z).
   { intros s0 v fr2 Hf. unfold fast_path in Hf. destruct (get_info s0 n) as [i|]; [|discriminate].
     destruct (negb (i_verified i =? s_ts s0)%N); [discriminate|]. cbn in Hf. inversion Hf. eauto. }
   destruct (fast_path s CUser None n) as [[v|sp] fr2] eqn:Ef.
   - destruct (Hhit _ _ _ Ef) as [-> [z ->]]. inversion H. cbn. eauto.
-  - destruct (mq_tfc p tord bord f [] CUser sp n s) as [s1| | |]; try discriminate.
-    destruct (mq_process p tord bord f [] CUser sp n s1) as [[marks s2]| | |]; try discriminate.
+  - destruct (mq_tfc p tord bord pord f [] CUser sp n s) as [s1| | |]; try discriminate.
+    destruct (mq_process p tord bord pord f [] CUser sp n s1) as [[marks s2]| | |]; try discriminate.
     destruct (fast_path s2 CUser None n) as [[v|sp'] fr2'] eqn:Ef2.
     + destruct (Hhit _ _ _ Ef2) as [-> [z ->]]. inversion H. cbn. eauto.
-    + destruct (query_for_o p None tord bord f [] CUser None n s2) as [[[[o3 fr3] m3] s3]| | |] eqn:Eq; try discriminate.
+    + destruct (query_for_o p None tord bord pord f [] CUser None n s2) as [[[[o3 fr3] m3] s3]| | |] eqn:Eq; try discriminate.
       inversion H. subst. eapply IH; eauto.
 Qed.
 
 Section Steps.
 Variable p : program.
-Variables tord bord : state -> node -> list node -> list node.
+Variables tord bord pord : state -> node -> list node -> list node.
 Variable rk : node -> nat.
 Hypothesis Hrk : forall n e d, alookup p n = Some e -> In d (expr_reads e) -> (rk d < rk n)%nat.
 Hypothesis Hproj : forall n e d, alookup p n = Some e -> nkind n = KProjection -> In d (expr_reads e) ->
@@ -92,7 +98,7 @@ Qed.
 
 (** every operation keeps the structural invariant *)
 Lemma nstep_inv : forall s o s' r inp,
-  SInvM p inp s -> step_f tord bord fuel pfuel p s o = (s', r) -> SInvM p (apply_op inp o) s'.
+  SInvM p inp s -> step_f tord bord pord fuel pfuel p s o = (s', r) -> SInvM p (apply_op inp o) s'.
 Proof.
   intros s o s' r inp HS H.
   assert (HS0 : SInvM p inp (set_log s [])) by (eapply SInvM_same; [| | |exact HS]; reflexivity).
@@ -108,15 +114,15 @@ Proof.
       eapply refresh_fold_SInv; [exact HS1| |exact Er]. intros e He. eapply (sk_ext _ _ _ HS1). exact He. }
     assert (HS3 : SInvM p (fold_left (fun a '(i, v) => input_set a i v) sets inp) (set_visited (set_stat s2 0%N) []))
       by (eapply SInvM_same; [| | |exact HS2]; reflexivity).
-    pose proof (propagate_np True pfuel (set_visited (set_stat s2 0%N) []) batch2) as Pp.
-    destruct (propagate pfuel (set_visited (set_stat s2 0%N) []) batch2) as [s4| | |] eqn:Ep; cbn in Pp; try contradiction;
+    pose proof (propagate_np pord True pord pfuel (set_visited (set_stat s2 0%N) []) batch2) as Pp.
+    destruct (propagate_o pord pfuel (set_visited (set_stat s2 0%N) []) batch2) as [s4| | |] eqn:Ep; cbn in Pp; try contradiction;
       inversion H; subst; try exact HS3.
     destruct Pp as (N1 & N2 & N3). eapply SInvM_same; eauto.
   - unfold step_f in H. cbn [apply_op].
     (* with the empty assumption [False] the progress statement only says what a COMPLETED request leaves *)
-    pose proof (proj1 (prog_all p tord bord rk Hrk Hproj Hkeys Htargets Htord Hbord inp False (fun g => match g with end) fuel)
+    pose proof (proj1 (prog_all p tord bord pord rk Hrk Hproj Hkeys Htargets Htord Hbord inp False (fun g => match g with end) fuel)
                   [] CUser None n (set_log s []) (EConst 0) HS0 (fun g => match g with end) (StkOk_nil rk n) (fun _ => eq_refl) I) as PQ.
-    destruct (query_for_o p None tord bord fuel [] CUser None n (set_log s [])) as [[[[o fr] ms] s1]| | |] eqn:Eq;
+    destruct (query_for_o p None tord bord pord fuel [] CUser None n (set_log s [])) as [[[[o fr] ms] s1]| | |] eqn:Eq;
       try (inversion H; subst; exact HS0).
     cbn in PQ. destruct PQ as (HS1 & _).
     destruct o as [[z|]|]; inversion H; subst; exact HS1.
@@ -128,18 +134,18 @@ Qed.
 Lemma nstep_query : forall s n s' r inp,
   SInvM p inp s -> alookup p n <> None ->
   (forall b e d, alookup p b = Some e -> In d (expr_reads e) -> nkind d = KInput -> input_get inp (nidx d) <> None) ->
-  step_f tord bord fuel pfuel p s (OQuery n) = (s', r) ->
+  step_f tord bord pord fuel pfuel p s (OQuery n) = (s', r) ->
   (exists z, r_out r = RValue z) \/ r_out r = RFuel.
 Proof.
   intros s n s' r inp HS Hn Hcov H.
   assert (HS0 : SInvM p inp (set_log s [])) by (eapply SInvM_same; [| | |exact HS]; reflexivity).
   assert (Hask : True -> Askable p (set_log s []) n).
   { intros _. right. right. split; [|exact Hn]. destruct (alookup p n) as [e|] eqn:He; [|congruence]. eapply Hkeys; eauto. }
-  pose proof (proj1 (prog_all p tord bord rk Hrk Hproj Hkeys Htargets Htord Hbord inp True (fun _ => Hcov) fuel)
+  pose proof (proj1 (prog_all p tord bord pord rk Hrk Hproj Hkeys Htargets Htord Hbord inp True (fun _ => Hcov) fuel)
                 [] CUser None n (set_log s []) (EConst 0) HS0 Hask (StkOk_nil rk n) (fun _ => eq_refl) I) as PQ.
   unfold step_f in H.
-  destruct (query_for_o p None tord bord fuel [] CUser None n (set_log s [])) as [[[[o fr] ms] s1]| | |] eqn:Eq; cbn in PQ.
-  - destruct (cuser_value _ _ _ _ _ _ _ _ _ _ Eq) as [z ->]. inversion H. left. eexists. reflexivity.
+  destruct (query_for_o p None tord bord pord fuel [] CUser None n (set_log s [])) as [[[[o fr] ms] s1]| | |] eqn:Eq; cbn in PQ.
+  - destruct (cuser_value _ _ _ _ _ _ _ _ _ _ _ Eq) as [z ->]. inversion H. left. eexists. reflexivity.
   - right. inversion H. reflexivity.
   - exfalso. apply PQ. exact I.
   - exfalso. apply PQ. exact I.
@@ -147,12 +153,12 @@ Qed.
 
 Lemma nrun : forall ops s inp i n r,
   SInvM p inp s -> nth_error ops i = Some (OQuery n) -> alookup p n <> None ->
-  nth_error (run_history_f tord bord fuel pfuel p s ops) i = Some r ->
+  nth_error (run_history_f tord bord pord fuel pfuel p s ops) i = Some r ->
   inputs_cover p (fold_left apply_op (firstn i ops) inp) ->
   (exists z, r_out r = RValue z) \/ r_out r = RFuel.
 Proof.
   induction ops as [|o rest IH]; intros s inp i n r HS Hop Hn Hres Hcov; [destruct i; discriminate|].
-  cbn [run_history_f] in Hres. destruct (step_f tord bord fuel pfuel p s o) as [s' x] eqn:Es.
+  cbn [run_history_f] in Hres. destruct (step_f tord bord pord fuel pfuel p s o) as [s' x] eqn:Es.
   destruct i as [|i]; cbn [nth_error firstn fold_left] in *.
   - inversion Hop. inversion Hres. subst o x. eapply nstep_query; [exact HS|exact Hn| |exact Es].
     intros b e d He. apply (Hcov b e d). apply alookup_In. exact He.
@@ -162,19 +168,21 @@ End Steps.
 
 Theorem model_no_panic_x_f : model_no_panic_x_statement_f.
 Proof.
-  intros tord bord fuel pfuel p ops i n r Ht Hb Hwf Hop Hn Hres Hcov.
+  intros tord bord pord fuel pfuel p ops i n r Ht Hb Hwf Hop Hn Hres Hcov.
   destruct (wf_model_x_facts p Hwf) as (rk & Hrk & Hproj & Hkeys).
   assert (Htargets : forall n e d, alookup p n = Some e -> In d (expr_reads e) ->
             is_mtarget_kind (nkind d) = true \/ (is_mexec_kind (nkind d) = true /\ alookup p d <> None)).
   { intros b e d He. apply (wfx_targets p Hwf b e d). apply alookup_In. exact He. }
-  eapply (nrun p tord bord rk Hrk Hproj Hkeys Htargets (order_ok_In _ Ht) (order_ok_In _ Hb) fuel pfuel ops init_state [] i n r); eauto.
+  eapply (nrun p tord bord pord rk Hrk Hproj Hkeys Htargets (order_ok_In _ Ht) (order_ok_In _ Hb) fuel pfuel ops init_state [] i n r); eauto.
   apply SInvM_init.
 Qed.
-Theorem model_no_panic_x_o : model_no_panic_x_statement_o.
+Theorem model_no_panic_x_op : model_no_panic_x_statement_op.
 Proof.
-  intros tord bord p ops i n r Ht Hb Hwf Hop Hn Hres Hcov. rewrite run_history_o_is_f in Hres.
-  exact (model_no_panic_x_f tord bord fuel0 4000%nat p ops i n r Ht Hb Hwf Hop Hn Hres Hcov).
+  intros tord bord pord p ops i n r Ht Hb Hwf Hop Hn Hres Hcov. rewrite run_history_op_is_f in Hres.
+  exact (model_no_panic_x_f tord bord pord fuel0 4000%nat p ops i n r Ht Hb Hwf Hop Hn Hres Hcov).
 Qed.
+Theorem model_no_panic_x_o : model_no_panic_x_statement_o.
+Proof. intros tord bord. exact (model_no_panic_x_op tord bord ord_id). Qed.
 Theorem model_no_panic_x : model_no_panic_x_statement.
 Proof. intros p ops i n r. exact (model_no_panic_x_o ord_id ord_id p ops i n r ord_id_ok ord_id_ok). Qed.
 
@@ -202,6 +210,7 @@ Example mex_uncovered :
 Proof. vm_compute. reflexivity. Qed.
 
 Print Assumptions model_no_panic_x_f.
+Print Assumptions model_no_panic_x_op.
 Print Assumptions model_no_panic_x_o.
 Print Assumptions model_no_panic_x.
 Print Assumptions model_no_panic.
